@@ -234,7 +234,9 @@ func init() {
 		mc := mcRun{"MC_AutogradFlags", 4, 2, true, false}
 		dump := mcRun{"MC_AutogradFlags", 3, 2, true, false}
 		if c.Thorough {
-			mc = mcRun{"MC_AutogradFlags", 5, 2, true, false}
+			// measured: 4 tensors / 3 back-propagations = 2.7 M distinct states (37 s); 4 / 2 = 1.1 M (its transitions are
+			// dumped and replayed); 5 tensors did not finish in 40 minutes
+			mc = mcRun{"MC_AutogradFlags", 4, 3, true, false}
 			dump = mcRun{"MC_AutogradFlags", 4, 2, true, false}
 		}
 		if err := modelCheck(c, mc, 40*time.Minute); err != nil {
